@@ -255,11 +255,56 @@ def _list_eq(rng):
             ks2.insert(rng.randint(0, len(ks2)), rand_t(rng, 1))
     elif r < 0.9:
         # generic `==` on arbitrary pairs of values, through one-element child lists (validates Py/PrimC08.lean `pyEqWith`)
+        if rng.random() < 0.6:
+            return prim_case(rng)
         return f"[ O TagList [ data L [ {any_value(rng)} ] ] O TagList [ data L [ {any_value(rng)} ] ] ]"
     else:
         b = foreign(rng)
         return f"[ {pv_list(ks)} {pv(b)} ]"
     return f"[ {pv_list(ks)} {pv_list(ks2)} ]"
+
+
+def _prim_cases():
+    """one pair for every row of the `==` table at the head of Py/PrimC08.lean (both orders where the row is about the
+    reflected protocol); compared through one-element child lists on every run"""
+    tag = pv(("tag", "a", False, [("id", ("p", "x"))], [("text", "t")]))
+    tag2 = pv(("tag", "a", False, [("id", ("h", "x"))], [("html", "t")]))
+    tl = pv_list([("text", "a")])
+    ver, ver2, ver3 = pv_version("1.0"), pv_version("1.0.0"), pv_version("1.2")
+    rep, rep2, met, met2 = pv(("robj", "r")), pv(("robj", "q")), pv(("meta", 1)), pv(("meta", 2))
+    dep = pv(("dep", dict(name="n", version="1.0", source=None, script=[], stylesheet=[], metas=[], all_files=False), False, []))
+    d1 = f"M [ {es('a')} {S('1')} {es('b')} {S('2')} ]"
+    d2 = f"M [ {es('b')} {H('2')} {es('a')} {S('1')} ]"
+    d3 = f"M [ {es('a')} {S('1')} ]"
+    d4 = f"M [ {es('a')} {S('1')} {es('c')} {S('2')} ]"
+    la, lb, lc = f"L [ {S('a')} {tag} ]", f"L [ {H('a')} {tag2} ]", f"L [ {S('a')} ]"
+    ua = f"U [ {S('a')} ]"
+    return [
+        ("N", "N"), ("N", "F"), ("F", "N"), ("T", "I 1"), ("I 1", "T"), ("F", "I 0"), ("T", "T"), ("T", "F"), ("I 7", "I 7"),
+        ("I 1", S("1")), (S("1"), "I 1"), (S("a"), S("a")), (S("a"), S("b")), (S("a"), H("a")), (H("a"), S("a")), (H("a"), H("a")),
+        (H("a"), H("b")), (H("1"), "I 1"), ("I 1", H("1")), (H(""), "N"), ("N", H("")), (S(""), "N"), (H("a"), lc), (lc, H("a")),
+        (la, lb), (la, lc), (lc, la), (lc, ua), (ua, lc), (ua, ua), ("L [ ]", "L [ ]"), ("L [ ]", "U [ ]"), ("L [ ]", "M [ ]"),
+        (d1, d2), (d2, d1), (d1, d3), (d3, d1), (d1, d4), ("M [ ]", "M [ ]"), ("M [ ]", "N"),
+        (tag, tag2), (tag, S("a")), (S("a"), tag), (H("a"), tag), (tag, H("a")), ("N", tag), (tag, "N"), ("T", tag), (tag, "I 0"),
+        (lc, tl), (tl, lc), (tl, tl), (tl, tag), (tag, tl), (dep, tag), (tag, dep), (dep, dep), (dep, "N"), ("N", dep), (d3, dep),
+        (ver, ver2), (ver2, ver), (ver, ver3), (ver, S("1.0")), (S("1.0"), ver), (ver, tag), (tag, ver), (H("1.0"), ver), (ver, H("1.0")),
+        (ver, "N"), ("N", ver), (ver, met), (met, ver), (ver, lc),
+        (rep, rep), (rep, rep2), (rep, S("r")), (S("r"), rep), (H("r"), rep), (rep, met), (met, rep), (met, met), (met, met2),
+        (met, "I 1"), ("I 1", met), (met, tag), (tag, met), (rep, tl), (tl, rep), (rep, "N"),
+        ("D " + es("1.5"), "D " + es("1.5")), ("I 1", "D " + es("1.0")), ("O Other [ ]", "O Other [ ]"), (tag, "O Other [ ]"),
+        ("O TagifiableObj [ tagify N ]", S("a")),
+    ]
+
+
+PRIM_CASES = None
+
+
+def prim_case(rng) -> str:
+    global PRIM_CASES
+    if PRIM_CASES is None:
+        PRIM_CASES = _prim_cases()
+    a, b = rng.choice(PRIM_CASES)
+    return f"[ O TagList [ data L [ {a} ] ] O TagList [ data L [ {b} ] ] ]"
 
 
 def any_value(rng) -> str:
@@ -290,8 +335,51 @@ def _impl_eq(rng):
     return f"[ {any_value(rng)} {any_value(rng)} ]"
 
 
+def _view(rng):
+    """`self` for the views that are `return str(self)`: values whose `str()` the fragment states (scalars, `HTML`,
+    instances with a recorded `__str__`); a real Tag / TagList now and then (`str()` of those is `Tag.__str__`, not
+    translated: no verdict)"""
+    r = rng.random()
+    if r < 0.9:
+        return f"[ {scalar(rng)} ]"
+    if r < 0.95:
+        return f"[ {pv(rand_tag(rng, 1))} ]"
+    return f"[ {pv_list([rand_t(rng, 1)])} ]"
+
+
 def register(GENS):
+    for f in ("Tag_repr", "Tag_repr_html", "TagList_repr", "TagList_repr_html"):
+        GENS[f] = _view
     GENS["equals_impl"] = _impl_eq
     GENS["Tag_eq"] = _tag_eq
     GENS["TagList_eq"] = _list_eq
     GENS["HTMLDependency_eq"] = _dep_eq
+
+
+# ---- `s.replace(old, new)` with a key of any length (Py/PrimC08.lean `pyReplaceAll`; the neutralisation step of
+#      HTMLDependency.serialize_to_script_json is `.replace("</", "<\\/")`)
+REPL_ALPHA = ["<", "/", "\\", "s", "c", "a", ">", " ", "é", "😀"]
+REPL_KEYS = ["</", "</", "</script>", "<", "/", "aa", "a", "</s", "//", "<<", "<\\/", "", "😀", "ca"]
+REPL_NEW = ["<\\/", "<\\/", "", "x", "</", "aa", "a", "<", "//"]
+
+
+def replace_lines(rng, n: int) -> list[str]:
+    out, seen = [], set()
+    for _ in range(n):
+        r = rng.random()
+        if r < 0.25:
+            txt = "".join(rng.choice(["</script>", "</", "<", "/", "</SCRIPT >", "a", "<\\/", "//", "<<"]) for _ in range(rng.randint(0, 5)))
+        else:
+            txt = "".join(rng.choice(REPL_ALPHA) for _ in range(rng.choice([0, 1, 2, 3, 5, 8, 13])))
+        old = rng.choice(REPL_KEYS) if rng.random() < 0.85 else "".join(rng.choice(REPL_ALPHA) for _ in range(rng.randint(1, 3)))
+        new = rng.choice(REPL_NEW)
+        q = rng.random()
+        wrap = (S, S, S) if q < 0.7 else (H, rng.choice([S, H]), rng.choice([S, H])) if q < 0.9 else (S, rng.choice([S, H]), rng.choice([S, H]))
+        a = [wrap[0](txt), wrap[1](old), wrap[2](new)]
+        if rng.random() < 0.04:
+            a[rng.randrange(1, 3)] = scalar(rng)        # a non-string argument
+        l = "srcc08 replace [ " + " ".join(a) + " ]"
+        if l not in seen:
+            seen.add(l)
+            out.append(l)
+    return out
